@@ -144,20 +144,27 @@ class Scan(ast.NodeVisitor):
         self.toks = [t for t in tokenize.generate_tokens(io.StringIO(source).readline) if t.type == tokenize.NAME]
         self.by_start = {t.start: i for i, t in enumerate(self.toks)}
         self.stack = ['module']
-        self.bind = []         # (name, kind, scope, pos, declared)
+        self.bind = []         # (name, kind, scope, pos, declared, scope identity)
+        self.dynamic = set()   # scopes that call locals()
         self.loads = set()
         self.excluded = set()
         self.decl = [set()]
+        self.sids = [0]
+        self.nsid = 0
 
     def scope(self):
         return self.stack[-1]
 
     def add(self, name, kind, pos):
-        self.bind.append((name, kind, self.scope(), tuple(pos), name in self.decl[-1]))
+        self.bind.append((name, kind, self.scope(), tuple(pos), name in self.decl[-1], self.sids[-1]))
 
     def visit_Name(self, n):
         if isinstance(n.ctx, ast.Load):
             self.loads.add(n.id)
+            if n.id == 'locals':
+                # locals() reads every local of the scope it is called in (supp counts them all as read): such scopes
+                # have no never-read local to judge
+                self.dynamic.add(self.sids[-1])
         elif isinstance(n.ctx, ast.Store):
             self.add(n.id, 'assign', (n.lineno, n.col_offset))
         else:
@@ -208,6 +215,8 @@ class Scan(ast.NodeVisitor):
         kind = 'lambda-in-class' if (is_lambda and parent == 'class') else ('method' if parent == 'class' else 'function')
         self.stack.append(kind)
         self.decl.append(set())
+        self.nsid += 1
+        self.sids.append(self.nsid)
         for arg in getattr(a, 'posonlyargs', []) + a.args + a.kwonlyargs + [x for x in (a.vararg, a.kwarg) if x]:
             if arg.annotation is not None and not is_lambda:
                 self.stack.append(parent)
@@ -221,6 +230,7 @@ class Scan(ast.NodeVisitor):
                 self.visit(s)
         self.stack.pop()
         self.decl.pop()
+        self.sids.pop()
 
     def visit_FunctionDef(self, n):
         self.func(n)
@@ -238,10 +248,13 @@ class Scan(ast.NodeVisitor):
             self.add(n.name, 'class', pos)
         self.stack.append('class')
         self.decl.append(set())
+        self.nsid += 1
+        self.sids.append(self.nsid)
         for s in n.body:
             self.visit(s)
         self.stack.pop()
         self.decl.pop()
+        self.sids.pop()
 
     def visit_ExceptHandler(self, n):
         if n.name:
@@ -317,8 +330,8 @@ def scan_file(path):
                 if isinstance(c, ast.Constant) and isinstance(c.value, str):
                     sc.loads.add(c.value)
     never = {}
-    for name, kind, scope, pos, declared in sc.bind:
-        if name in sc.loads or name in sc.excluded:
+    for name, kind, scope, pos, declared, sid in sc.bind:
+        if name in sc.loads or name in sc.excluded or sid in sc.dynamic:
             continue
         never.setdefault(name, []).append((kind, scope, pos, declared))
     return src, never
